@@ -613,6 +613,20 @@ pub fn c15(tier: &str) -> ! {
             rep.extra_violations += 1;
         }
     }
+    // log level: a damaged fragment of a multi-fragment record must never make the reader deliver
+    // a record that was not appended (e.g. an orphan Last fragment taken for a whole record)
+    {
+        let lshm = Shm::new(1 << 4, 1 << 20);
+        for c in crate::compx::log_corruption_cases() {
+            crate::compx::log_corruption_case(&c, &lshm, "C15.log_record_invented");
+        }
+        for (clause, detail, case) in crate::compx::parse_found(&lshm) {
+            rep.findings.push(Finding { clause, detail, ops: vec!["log reader".to_string(), case.to_string()], artefact: json!({"explorer": "compx", "component": "log", "case": case}) });
+        }
+        shm.add(C_CASES, lshm.get(C_CASES));
+        shm.add(C_NONTRIVIAL, lshm.get(C_NONTRIVIAL));
+        rep.cov("log_fragment_corruptions", json!(lshm.get(C_CASES)));
+    }
     rep.cov("evaluations", json!(shm.get(C_CASES)));
     rep.cov("distinct_nontrivial", json!(shm.get(C_NONTRIVIAL)));
     rep.cov("exhaustive", json!(!capped));
